@@ -866,6 +866,7 @@ func runC08(c *Check) {
 	nWait := la.checkNoBlockingUnderLock(c, "R8.6", nil)
 	c.Floor("R8.6", "blocking operations in the store packages", nWait, 1)
 	c08CloseOnce(c)
+	c08CacheLayers(c)
 }
 
 func c08CheckThenAdd(c *Check, la *lockAnalysis) {
